@@ -19,22 +19,30 @@
 (* arbitrary further set of backing-live keys of its range.                *)
 (***************************************************************************)
 EXTENDS Sandbox
+CONSTANT LookAhead     \* 99 = any over-read, else the maximal look-ahead of a scan
 VARIABLES rp, up, same
 mcvars == <<vars, rp, up, same>>
 
 (* the reader built from the read set rp: XMReaderFromRWSet *)
 bk2 == [k \in Keys |-> IF k \in rp THEN (IF bk[k] \in {"live", "del"} THEN bk[k] ELSE "emp") ELSE "nf"]
 
+(* what a scan may read beyond the keys it must read: LookAhead = "any": any further backing-live keys of  *)
+(* the range; LookAhead = k: the next 0..k of them in key order (the code's peekIterators: at most two)  *)
+OverReads(b, lo, hi, need) ==
+  LET rest == {k \in Keys : InRange(k, b, lo, hi) /\ bk[k] = "live" /\ k \notin inp /\ k \notin need}
+      rs   == SelectSeq([n \in 1..NamesOf(b) |-> <<b, n>>], LAMBDA k : k \in rest)
+  IN IF LookAhead = 99 THEN SUBSET rest
+     ELSE {{rs[j] : j \in 1..m} : m \in 0..Min2(LookAhead, Len(rs))}
+
 MCInit == Init /\ rp \in SUBSET Keys /\ up \in 0..NU /\ same = TRUE
 
 Keep == UNCHANGED <<rp, up>>
 MCStep ==
-  \/ \E f \in XmStates : Start(f) /\ Keep /\ UNCHANGED same
+  \/ mode = "idle" /\ \E f \in XmStates : Start(f, NU) /\ Keep /\ UNCHANGED same
   \/ \E k \in Keys : Get(k) /\ Keep /\ same' = (same /\ LastEv.res = SemVal(bk2, out, k))
   \/ \E k \in Keys : (Del(k) \/ \E v \in Vals : Put(k, v)) /\ Keep /\ UNCHANGED same
   \/ \E b \in {TB, 1, 2} : \E r \in Ranges(b) : \E lim \in Limits :
-       \E extra \in SUBSET {k \in Keys : InRange(k, b, r[1], r[2]) /\ bk[k] = "live" /\ k \notin inp} :
-          /\ Select(b, r[1], r[2], lim, extra) /\ Keep
+          /\ Select(b, r[1], r[2], lim, LAMBDA nd : OverReads(b, r[1], r[2], nd)) /\ Keep
           \* the replay's own input cache cannot matter: in "rs" mode every cached record is also in the reader
           /\ same' = (same /\ IF r[2] # 0 /\ r[1] > r[2] THEN LastEv.res = "err"
                                ELSE LastEv.res = "ok" /\ LastEv.items = Items(Take(Mech(bk2, "rs", {}, out, b, r[1], r[2]), lim)))
@@ -50,5 +58,5 @@ Feasible == inp \subseteq rp /\ un <= up
 (* C10 replay clause *)
 ReplayReproduces == (inp = rp /\ un = up) => same
 
-View == <<mode, bk, inp, out, req, un, rp, up, same>>
+View == <<mode, bk, inp, out, pool, un, rp, up, same>>
 =============================================================================
